@@ -27,8 +27,18 @@ For every unit the verifier demands
   and are consistent at every join; the catch target of a `TryStart` is entered with the depths at the
   `TryStart` (plus its own catch point) — and never goes negative (`SequencePush*`, `SequenceTo*`
   need an open sequence; `StringPush`, `StringFinish` an open string; `TryEnd` an open try).
-  A `Return` may leave builders and try blocks open: the catch stack is part of the VM frame, and
-  since fix 97373d1 `pop_frame` truncates both builder stacks to their lengths at frame entry.
+  A `Return` may leave try blocks open (the catch stack is part of the VM frame) and may be reached
+  with open builders — but only *inside a builder bracket*, see the next item;
+* **brackets**: in listing order the builder instructions are bracket-structured — every
+  `SequenceStart` is followed by its `SequenceToList`/`SequenceToTuple`, every `StringStart` by its
+  `StringFinish`, properly nested, and all brackets are closed at the end of the unit — and at every
+  reachable instruction the (dynamic) builder depths of the balance assignment equal the (static)
+  nesting depth of the instruction in this bracket structure. So an instruction executes with exactly
+  the builders of the brackets that enclose it in the code: a `Return` finds open builders only when it
+  sits inside a literal's bracket (`[1, (return 2)]`, `'{return x}'`) — these are the builders that
+  `pop_frame` discards by truncating the builder stacks to their lengths at frame entry (fix 97373d1),
+  which is exactly the VM's contract for leaving a frame — whereas a `Start` that no `Finish` closes
+  (a leak in straight-line code) is rejected even if no join ever sees two different depths.
 
 The depth assignment is *inferred* by an untrusted linear pass (`annotate`) and then *checked*
 (`checkAnns`); only the check matters for the soundness theorems (Props/C05.lean).
@@ -176,6 +186,39 @@ def applyEff (op : Op) (d : Depth) : Option Depth :=
   | .TryEnd => if d.try_ = 0 then none else some { d with try_ := d.try_ - 1 }
   | _ => some d
 
+/-! ### Bracket structure of the builder instructions -/
+
+/-- Effect of an instruction on the static nesting depth (sequence brackets, string brackets) in
+listing order; `none`: a `Finish` without an open bracket. -/
+def linStep (op : Op) (s t : Nat) : Option (Nat × Nat) :=
+  match op with
+  | .SequenceStart => some (s + 1, t)
+  | .SequenceToList | .SequenceToTuple => if s = 0 then none else some (s - 1, t)
+  | .StringStart => some (s, t + 1)
+  | .StringFinish => if t = 0 then none else some (s, t - 1)
+  | _ => some (s, t)
+
+/-- The listing is bracket-structured from nesting depth `(s, t)` on, closes every bracket by its
+end, and the inferred builder depths of reachable instructions are their nesting depths. -/
+def linOk : Nat → Nat → List Ann → Bool
+  | s, t, [] => s = 0 && t = 0
+  | s, t, a :: rest =>
+    (match a.d with
+     | some d => d.seq = s && d.str = t
+     | none => true)
+    && (match linStep a.ins.op s t with
+        | some (s', t') => linOk s' t' rest
+        | none => false)
+
+/-- Static nesting depth (sequence, string) of the instruction at `p`. -/
+def bracketAt : Nat → Nat → List Ann → Nat → Option (Nat × Nat)
+  | _, _, [], _ => none
+  | s, t, a :: rest, p =>
+    if a.pc = p then some (s, t)
+    else match linStep a.ins.op s t with
+      | some (s', t') => bracketAt s' t' rest p
+      | none => none
+
 /-! ### Lookups in a listing -/
 
 def findPc (l : List Ann) (p : Nat) : Option Ann := l.find? (·.pc == p)
@@ -217,7 +260,7 @@ def checkFrom (rc : Nat) (consts : List CKind) : List Ann → List Ann → Bool
     localOk rc consts (lookupFrom seen rest a) a && checkFrom rc consts (a :: seen) rest
 
 /-- `NewFrame` first (with room for `need` registers) and nowhere else, depth `(0,0,0)` at entry,
-sorted listing, and the local conditions everywhere. -/
+sorted listing, the local conditions everywhere, and the bracket structure. -/
 def checkAnns (consts : List CKind) (base need : Nat) (anns : List Ann) : Bool :=
   match anns with
   | [] => false
@@ -227,6 +270,7 @@ def checkAnns (consts : List CKind) (base need : Nat) (anns : List Ann) : Bool :
     && rest.all (fun b => b.ins.op ≠ .NewFrame)
     && pcsFrom base anns
     && checkFrom (argAt a.ins 0) consts [] anns
+    && linOk 0 0 anns
 
 /-! ### Inference of the depth assignment (untrusted) -/
 
@@ -308,7 +352,9 @@ def explainAnns (consts : List CKind) (base need : Nat) (anns : List Ann) : Opti
       | none =>
         if !pcsFrom base anns then some s!"listing-not-sorted@{base}"
         else if !(a.d == some ⟨0, 0, 0⟩) then some s!"entry-depth@{base}"
-        else explainFrom (argAt a.ins 0) consts [] anns
+        else match explainFrom (argAt a.ins 0) consts [] anns with
+          | some e => some e
+          | none => if linOk 0 0 anns then none else some s!"builders-not-bracket-structured@{base}"
 
 def explainUnit (consts : List CKind) : Nat → Nat → Nat → List Nat → Option String
   | 0, base, _, _ => some s!"fuel@{base}"
